@@ -3,7 +3,7 @@
    Print Assumptions.  Model: coq/C12/Reduce.v, coq/C12/Hash.v over coq/gen/ReduceParams.v. *)
 From Coq Require Import NArith List.
 From MirV Require Import gen.ReduceParams C12.Arr C12.Hash C12.Reduce C12.CodecProofs C12.DecodeProofs
-  C12.RoundTrip C12.EncodeTotal C12.EncodeExact.
+  C12.RoundTrip C12.EncodeTotal C12.EncodeExact C12.HashProofs.
 Import ListNotations.
 Local Open Scope N_scope.
 
@@ -144,3 +144,14 @@ Theorem reduce_match_len_maximal : forall buf p1 p2 bound fuel len,
   /\ (r = bound \/ bget buf (p1 + r) <> bget buf (p2 + r)).
 Proof. exact match_len_maximal. Qed.
 Print Assumptions reduce_match_len_maximal.
+
+(* Hash arithmetic: the only place where the hash model does not follow the C text literally.
+   On little-endian hosts with unaligned access mir_get_key_part loads 8 or 4 bytes at once
+   ([key_part_fast]: the loads are little-endian values) instead of running the byte loop the model
+   uses ([key_part]); both give the same 64-bit word for every list of at most 8 bytes, namely the
+   bytes packed little-endian into the TOP of the word. *)
+Theorem reduce_hash_key_part_fast_path : forall l,
+  Forall (fun b => b < 256) l -> (length l <= 8)%nat ->
+  key_part_fast l = key_part l /\ key_part l = le_value l * p256 (8 - length l).
+Proof. exact (fun l Hb Hl => conj (key_part_fast_eq l Hb Hl) (key_part_value l Hb Hl)). Qed.
+Print Assumptions reduce_hash_key_part_fast_path.
